@@ -109,6 +109,8 @@ SIGS['C'] = {
         'sqrt': [_sl('o', '[', ']'), _sl('m')],
         'item': [_sl('o', '[', ']')],
         'label': [_sl('m')],          # known to the walker, unknown to latex2text: discarded with its argument
+        'hspace': [_sl('s', '*'), _sl('m')],      # text replacement is the empty string
+        '\\': [_sl('s', '*'), _sl('o', '[', ']', nospace=True)],
     },
     'envs': {
         'itemize': dict(sig=[_sl('o', '[', ']')], body=None),
